@@ -1879,6 +1879,7 @@ class InTableTextPhase(Phase):
         data = "".join([item["data"] for item in self.characterTokens])
         if any(item not in spaceCharacters for item in data):
             token = {"type": tokenTypes["Characters"], "data": data}
+            self.parser.parseError("unexpected-char-implies-table-voodoo")
             self.parser.phases["inTable"].insertText(token)
         elif data:
             self.tree.insertText(data)
